@@ -12,6 +12,7 @@ out = {}
 a = common.load_ast()
 for f in a.functions():
     out.setdefault(f["path"], []).append(f["container"] + "::" + f["name"])
+    out.setdefault("sig:" + f["path"], {})[f["container"] + "::" + f["name"]] = common.fn_signature(f["node"])
 x = common.load_expanded()
 for f in x.functions():
     out.setdefault("expanded:" + f["path"], []).append(f["container"] + "::" + f["name"])
@@ -19,6 +20,7 @@ import mir
 fx = mir.load_facts()
 out["mir:lib"] = [mir.strip_generics(f["name"]) for f in fx.functions("lib")]
 for k in out:
-    out[k] = sorted(set(out[k]))
+    if isinstance(out[k], list):
+        out[k] = sorted(set(out[k]))
 json.dump(out, open(os.path.join(VERIF, "lib", "vocab.json"), "w"), indent=0, sort_keys=True)
 print({k: len(v) for k, v in out.items()})
